@@ -730,7 +730,9 @@ def r117(ctx, R):
                 continue
             if isinstance(par, ast.Call) and x in par.args:
                 if fresh_copy(f, par):
-                    continue       # counted with the named copies above
+                    if not any(a.value is par for a in copies):
+                        n += 1     # a fresh copy used in place
+                    continue       # else counted with the named copies
                 if src(par.func) == 'dict' and par.args[0] is x:
                     n += 1         # dict(DEFAULTS, **record): fresh
                     continue
